@@ -110,7 +110,7 @@ static void exec_program(const Program &P, std::vector<uint64_t> &dig) {
         if (kf) econf_freeFile(kf);
         kf = nullptr;
         // half of the reads name the file relative to the (common) working directory
-        std::string f = (op.b % 2 ? P.rel : P.dir) + "/file" + std::to_string(op.a) + ".conf";
+        std::string f = (op.b % 2 ? P.rel : P.dir) + (op.a == 3 ? std::string("/big.conf") : "/file" + std::to_string(op.a) + ".conf");
         e = econf_readFile(&kf, f.c_str(), op.s1.c_str(), op.s2.c_str());
         if (e != ECONF_SUCCESS) kf = nullptr;
         break;
@@ -205,6 +205,19 @@ static Program gen_program(Src &s, const std::string &dir, bool &reads, bool &wr
     if (s.chance(25)) t += "[broken\n";
     write_file(dir + "/file" + std::to_string(i) + ".conf", t);
   }
+  {
+    // a long file with many multi-line values: parsing it takes long enough for the threads to be inside the
+    // reader at the same time, at different line numbers
+    std::string big;
+    int nent = 150 + (int)s.below(250), shift = (int)s.below(7);
+    for (int i = 0; i < shift; i++) big += "# preamble " + std::to_string(i) + "\n";
+    for (int i = 0; i < nent; i++) {
+      big += "key" + std::to_string(i) + " = value " + std::to_string(i) + "\n";
+      for (int c = (i + shift) % 3; c > 0; c--) big += "   continued " + std::to_string(i) + "." + std::to_string(c) + "\n";
+      if (i % 17 == 0) big += "[sec" + std::to_string(i) + "]\n";
+    }
+    write_file(dir + "/big.conf", big);
+  }
   static const char *snip[4] = {"a=1\n[S]\nb=2\n", "a=override\nc=3\n", "[S]\nb=9\nd=4\n", "x=1\nx=2\n"};
   if (s.chance(70)) write_file(dir + "/l1/app.conf", snip[s.below(4)]);
   if (s.chance(40)) write_file(dir + "/l2/app.conf", snip[s.below(4)]);
@@ -215,7 +228,7 @@ static Program gen_program(Src &s, const std::string &dir, bool &reads, bool &wr
   for (int i = 0; i < n; i++) {
     auto sp = s.span();
     Op op;
-    op.kind = (int)s.weighted({10, 22, 18, 8, 6, 8, 7, 4, 6, 4, 2, 3, 6});
+    op.kind = (int)s.weighted({10, 20, 16, 6, 6, 16, 7, 4, 6, 4, 2, 3, 6});
     op.slot = (int)s.below(3);
     op.slot2 = (int)s.below(3);
     op.a = (int)s.below(4);
@@ -228,7 +241,13 @@ static Program gen_program(Src &s, const std::string &dir, bool &reads, bool &wr
         writes = true;
         break;
       case O_GET: op.s1 = hist_keys()[s.below((uint32_t)hist_keys().size())]; reads = true; break;
-      case O_READFILE: op.a = (int)s.below(3); op.s1 = s.chance(80) ? "=" : " ="; op.s2 = "#"; reads = true; break;
+      case O_READFILE:
+        op.a = (int)s.below(5);
+        if (op.a >= 3) op.a = 3;  // 40 %: the big file
+        op.s1 = (op.a == 3 || s.chance(80)) ? "=" : " =";
+        op.s2 = "#";
+        reads = true;
+        break;
       case O_READCONFIG: op.a = (int)s.below(2); op.b = (int)s.below(2); reads = true; break;
       case O_WRITE: writes = true; break;
       default: break;
